@@ -126,6 +126,7 @@ type Line struct {
 	Hist   []Step  `json:"hist"`
 	Step   Step    `json:"step"`
 	Expect Expect  `json:"expect"`
+	G      json.RawMessage `json:"g,omitempty"` // geometry family payload
 	raw    string
 }
 
